@@ -1170,6 +1170,8 @@ htp_status_t htp_connp_RES_FINALIZE(htp_connp_t *connp) {
     }
     size_t bytes_left;
     unsigned char * data;
+    // The part of the line that earlier calls have set aside.
+    size_t carried = (connp->out_buf != NULL) ? connp->out_buf_size : 0;
 
     if (htp_connp_res_consolidate_data(connp, &data, &bytes_left) != HTP_OK) {
         return HTP_ERROR;
@@ -1198,6 +1200,10 @@ htp_status_t htp_connp_RES_FINALIZE(htp_connp_t *connp) {
     }
     if (connp->out_current_read_offset < connp->out_current_consume_offset) {
         connp->out_current_consume_offset=connp->out_current_read_offset;
+    }
+    // The bytes of this chunk will be read again; keep only what was set aside before.
+    if (connp->out_buf != NULL) {
+        connp->out_buf_size = carried;
     }
     return htp_tx_state_response_complete_ex(connp->out_tx, 0 /* not hybrid mode */);
 }
